@@ -406,7 +406,34 @@ class Parser:
                 self.expect(";")
                 stmts.append(("let", pat, ty, init))
                 continue
-            if self.at("fn") or self.at("use") or self.at("struct") or self.at("const") or self.at("#"):
+            if self.at("#"):                       # attribute on a nested item / statement
+                self.next()
+                self.p = skip_balanced(self.t, self.p, "[", "]")
+                continue
+            if self.at("use"):
+                self.next()
+                path = [self.ident()]
+                glob = False
+                while self.accept("::"):
+                    if self.accept("*"):
+                        glob = True
+                        break
+                    if self.at("{"):
+                        raise Unsupported("use list")
+                    path.append(self.ident())
+                self.expect(";")
+                stmts.append(("use", path, glob))
+                continue
+            if self.at("fn"):
+                self.next()
+                name = self.ident()
+                if self.at("<"):
+                    raise Unsupported("generic nested fn")
+                params, ret, mutself = self.fn_sig()
+                body = self.block()
+                stmts.append(("fn", name, params, ret, body))
+                continue
+            if self.at("struct") or self.at("const") or self.at("static") or self.at("enum") or self.at("impl"):
                 raise Unsupported("line %d: nested item" % self.peek()[2])
             e = self.expr()
             if self.accept(";"):
@@ -419,6 +446,44 @@ class Parser:
                 raise Unsupported("line %d: `;` expected, found `%s`" % (self.peek()[2], self.peek()[1]))
         self.expect("}")
         return ("block", stmts, tail)
+
+    def fn_sig(self):
+        """at `(`: parameters and return type -> (params, ret, mutself)"""
+        self.expect("(")
+        params, mutself = [], False
+        while not self.at(")"):
+            is_ref = is_mut = False
+            if self.at("&"):
+                self.next()
+                is_ref = True
+                if self.peek()[0] == "life":
+                    self.next()
+                is_mut = self.accept("mut")
+            else:
+                self.accept("mut")
+            if self.at("self"):
+                self.next()
+                mutself = is_ref and is_mut
+                params.append(("self", ("ty", "Self", [])))
+            else:
+                pat = self.pattern()
+                if pat[0] != "pbind":
+                    raise Unsupported("pattern parameter")
+                self.expect(":")
+                if self.at("&") and self.at("mut", 1):
+                    raise Unsupported("&mut parameter")
+                if self.at("&") and self.peek(1)[0] == "life" and self.at("mut", 2):
+                    raise Unsupported("&mut parameter")
+                params.append((pat[1], self.ty()))
+            if not self.accept(","):
+                break
+        self.expect(")")
+        ret = ("ty", "unit", [])
+        if self.accept("->"):
+            ret = self.ty()
+        if self.at("where"):
+            raise Unsupported("where clause")
+        return params, ret, mutself
 
     def primary(self, nostruct):
         tk = self.peek()
@@ -840,45 +905,54 @@ class Source:
         info = self.fns[key]
         (j, pend, k) = info["sig"]
         p = Parser(self.toks, j)
-        p.expect("(")
-        params = []
-        while not p.at(")"):
-            if p.at("&"):
-                p.next()
-                if p.peek()[0] == "life":
-                    p.next()
-                p.accept("mut")
-            p.accept("mut")
-            if p.at("self"):
-                p.next()
-                params.append(("self", ("ty", "Self", [])))
-            else:
-                pat = p.pattern()
-                if pat[0] != "pbind":
-                    raise Unsupported("pattern parameter")
-                p.expect(":")
-                params.append((pat[1], p.ty()))
-            if not p.accept(","):
-                break
-        p.expect(")")
-        ret = ("ty", "unit", [])
-        if p.accept("->"):
-            ret = p.ty()
-        if p.at("where"):
-            raise Unsupported("where clause")
+        params, ret, mutself = p.fn_sig()
         if p.p != k:
             raise Unsupported("signature of %s" % info["name"])
         body = p.block()
-        return params, ret, body
+        return params, ret, body, mutself
 
 
 # ------------------------------------------------------------------------------------ translation
-INT_TYPES = {"u32": ("N", "u32"), "usize": ("N", "usize"), "u64": ("N", "u64"), "u8": ("N", "u8")}
-COQ_KEYWORDS = set("end in at as fun match with let fix if then else return forall exists Type Set Prop where using".split())
+# Rust type -> (Coq carrier, operator prefix).  u32 is N with checked operators; usize is nat (the
+# model's convention for lengths and indices: 64-bit overflow of an index is not modelled, subtraction
+# is checked).
+INT_TYPES = {"u32": ("N", "u32"), "usize": ("nat", "usize"), "u64": ("N", "u64"), "u8": ("N", "u8"), "char": ("N", "u32")}
 
 
 def T(name, *args):
     return ("ty", name, list(args))
+
+
+UNIT = T("unit")
+
+
+def is_int(ty):
+    return ty is not None and ty[0] == "ty" and ty[1] in INT_TYPES
+
+
+def is_nat(ty):
+    return ty is not None and ty[0] == "ty" and ty[1] == "usize"
+
+
+def is_list(ty):
+    return ty is not None and ty[0] == "ty" and ty[1] in ("slice", "Vec")
+
+
+def var(name):
+    return "v_" + name
+
+
+def fld(name):
+    return "f" + name if name.isdigit() else name
+
+
+def tuple_proj(term, i, n):
+    """component i of a left-nested Coq tuple of arity n"""
+    if n == 1:
+        return term
+    if i == n - 1:
+        return "(snd %s)" % term
+    return tuple_proj("(fst %s)" % term, i, n - 1)
 
 
 class Ctx:
@@ -888,12 +962,11 @@ class Ctx:
         self.name = name
         self.sources = sources            # list of Source; the first is the primary one
         self.cfg = cfg
-        self.fn_info = {}                 # (impl, name) -> dict(coq, params, ret, pure)
-        self.out = []
+        self.fn_info = {}                 # (impl, name) -> dict(coq, params, ret, pure, fuel, mutself)
         self.tmp = 0
         self.default_int = cfg.get("default_int", "u32")
+        self.aux_names = []
 
-    # -- lookups
     def struct(self, name):
         for s in self.sources:
             if name in s.structs:
@@ -912,23 +985,30 @@ class Ctx:
                 return s.consts[name]
         return None
 
+    def derives(self, name):
+        d = set()
+        for s in self.sources:
+            d |= s.derives.get(name, set())
+        return d
+
     def fresh(self, base="t"):
         self.tmp += 1
         return "%s%d_" % (base, self.tmp)
 
-    # -- types
     def coq_ty(self, ty):
         if ty[0] == "tup":
             return "(" + " * ".join(self.coq_ty(x) for x in ty[1]) + ")%type"
         name, args = ty[1], ty[2]
         if name in INT_TYPES:
-            return "N"
+            return INT_TYPES[name][0]
         if name == "bool":
             return "bool"
         if name == "unit":
             return "unit"
         if name == "Option":
             return "(option %s)" % self.coq_ty(args[0])
+        if name == "Result":
+            return "(result %s %s)" % (self.coq_ty(args[0]), self.coq_ty(args[1]))
         if name in ("slice", "Vec"):
             return "(list %s)" % self.coq_ty(args[0])
         if name == "Ordering":
@@ -938,6 +1018,8 @@ class Ctx:
         raise Unsupported("type " + name)
 
     def resolve_self(self, ty, impl):
+        if ty is None:
+            return None
         if ty[0] == "tup":
             return ("tup", [self.resolve_self(x, impl) for x in ty[1]])
         if ty[1] == "Self":
@@ -945,25 +1027,200 @@ class Ctx:
         return ("ty", ty[1], [self.resolve_self(x, impl) for x in ty[2]])
 
 
-def is_int(ty):
-    return ty is not None and ty[0] == "ty" and ty[1] in INT_TYPES
+def walk(e, f):
+    """apply f to every tuple node of an AST"""
+    if isinstance(e, tuple):
+        f(e)
+        for x in e:
+            walk(x, f)
+    elif isinstance(e, list):
+        for x in e:
+            walk(x, f)
 
 
-def var(name):
-    return "v_" + name
+def has_kind(e, kinds):
+    found = []
+
+    def f(x):
+        if x and isinstance(x[0], str) and x[0] in kinds:
+            found.append(x)
+    walk(e, f)
+    return bool(found)
+
+
+def has_exit(e):
+    """`?` / `return` (exit from the function), or break / continue / assignment (an effect on the
+    enclosing loop or on a variable): the continuation must then be threaded through the branches"""
+    return has_kind(e, ("try", "return", "break", "continue", "assign", "mutcall"))
+
+
+def assigned_vars(e):
+    """root variables assigned (or mutated through a method) anywhere in e"""
+    out = []
+
+    def root(pl):
+        while pl[0] in ("field", "index"):
+            pl = pl[1]
+        return pl[1][0] if pl[0] == "path" and len(pl[1]) == 1 else None
+
+    def f(x):
+        if x[0] == "assign":
+            r = root(x[2])
+            if r and r not in out:
+                out.append(r)
+        if x[0] == "mcall" and x[2] in MUTATING_METHODS:
+            r = root(x[1])
+            if r and r not in out:
+                out.append(r)
+    walk(e, f)
+    return out
+
+
+def used_vars(e):
+    out = []
+
+    def f(x):
+        if x[0] == "path" and len(x[1]) == 1 and x[1][0] not in out:
+            out.append(x[1][0])
+    walk(e, f)
+    return out
+
+
+def let_bound(e):
+    out = set()
+
+    def pv(p):
+        if p[0] == "pbind":
+            out.add(p[1])
+        for x in p[1:]:
+            if isinstance(x, tuple):
+                pv(x)
+            elif isinstance(x, list):
+                for y in x:
+                    if isinstance(y, tuple) and y and isinstance(y[0], str):
+                        pv(y)
+                    elif isinstance(y, tuple) and len(y) == 2 and isinstance(y[1], tuple):
+                        pv(y[1])
+
+    def f(x):
+        if x[0] == "let":
+            pv(x[1])
+        if x[0] == "for":
+            pv(x[1])
+        if x[0] == "match":
+            for (p_, _g, _b) in x[2]:
+                pv(p_)
+    walk(e, f)
+    return out
+
+
+MUTATING_METHODS = {"push"}          # plus the &mut self methods of the translated set (added per module)
 
 
 class FnTranslator:
-    def __init__(self, ctx, impl, fname, params, ret, body):
+    def __init__(self, ctx, impl, coq_name, params, ret, body, mutself=False, local_fns=None):
         self.c = ctx
         self.impl = impl
-        self.fname = fname
+        self.coq_name = coq_name
         self.params = [(n, ctx.resolve_self(t, impl)) for n, t in params]
         self.ret = ctx.resolve_self(ret, impl)
         self.body = body
-        self.can_panic = False
+        self.mutself = mutself
+        self.local_fns = local_fns or {}
+        self.globs = []                # enums opened by `use E::*`
+        self.uses_fuel = False
+        self.aux = []                  # loop fixpoints, emitted before the function
+        self.nloops = 0
+        self.locals = {}
+        self.ret_k = lambda v: "Some %s" % self.finish(v)
+        self.full_ret = self.ret if not mutself else (T(impl) if self.ret == UNIT else ("tup", [T(impl), self.ret]))
+
+    def finish(self, v):
+        if not self.mutself:
+            return v
+        return var("self") if self.ret == UNIT else "(%s, %s)" % (var("self"), v)
+
+    # ---------------------------------------------------------------- local type inference
+    def infer_locals(self, env):
+        """types of `let x = <literal>` locals from their uses (comparison with / assignment of typed
+        expressions, index position)"""
+        known = dict(env)
+        changed = True
+        body = self.body
+
+        def visit(x):
+            nonlocal changed
+            k = x[0]
+
+            def setv(pathe, ty):
+                nonlocal changed
+                if pathe[0] == "path" and len(pathe[1]) == 1 and ty is not None and pathe[1][0] not in known:
+                    known[pathe[1][0]] = self.c.resolve_self(ty, self.impl)
+                    changed = True
+            if k == "let" and x[1][0] == "pbind" and x[3] is not None:
+                t = x[2] or self.ty_of(x[3], known)
+                if t is not None and x[1][1] not in known:
+                    known[x[1][1]] = self.c.resolve_self(t, self.impl)
+                    changed = True
+            if k == "let" and x[1][0] == "ptuple" and x[3] is not None:
+                t = x[2] or self.ty_of(x[3], known)
+                if t is not None and t[0] == "tup":
+                    for p_, pt in zip(x[1][1], t[1]):
+                        if p_[0] == "pbind" and p_[1] not in known and pt is not None:
+                            known[p_[1]] = pt
+                            changed = True
+            if k == "binary":
+                ta, tb = self.ty_of(x[2], known), self.ty_of(x[3], known)
+                if x[1] not in ("&&", "||", "<<", ">>"):
+                    setv(x[2], tb)
+                    setv(x[3], ta)
+            if k == "assign":
+                ta, tb = self.ty_of(x[2], known), self.ty_of(x[3], known)
+                setv(x[2], tb)
+                setv(x[3], ta)
+            if k == "index" and x[2][0] != "range":
+                setv(x[2], T("usize"))
+            if k == "call" and x[1][0] == "path":
+                info = self.lookup_fn(x[1][1])
+                if info:
+                    for a_, (_n, pt) in zip(x[2], [q for q in info["params"] if q[0] != "self"]):
+                        setv(a_, pt)
+            if k == "mcall":
+                rt = self.ty_of(x[1], known)
+                if rt and rt[0] == "ty":
+                    info = self.c.fn_info.get((rt[1], x[2]))
+                    if info:
+                        for a_, (_n, pt) in zip(x[3], [q for q in info["params"] if q[0] != "self"]):
+                            setv(a_, pt)
+        while changed:
+            changed = False
+            walk(body, visit)
+        return known
 
     # ---------------------------------------------------------------- typing (best effort)
+    def variant_enum(self, name):
+        """enum (among the glob-imported ones) that has a variant `name`"""
+        for en in self.globs:
+            for v, tys in self.c.enum(en) or []:
+                if v == name:
+                    return en, tys
+        return None
+
+    def enum_variant(self, path):
+        """(enum, variant, types) for a path that names an enum variant"""
+        p = list(path)
+        if p[0] == "Self":
+            p[0] = self.impl
+        if len(p) == 2 and self.c.enum(p[0]) is not None:
+            for v, tys in self.c.enum(p[0]):
+                if v == p[1]:
+                    return p[0], v, tys
+        if len(p) == 1:
+            r = self.variant_enum(p[0])
+            if r:
+                return r[0], p[0], r[1]
+        return None
+
     def ty_of(self, e, env):
         k = e[0]
         if k == "rawterm":
@@ -979,14 +1236,15 @@ class FnTranslator:
             if len(p) == 1:
                 if p[0] in env:
                     return env[p[0]]
+                if p[0] in self.locals:
+                    return self.locals[p[0]]
                 c = self.c.const(p[0])
                 if c:
                     return c[0]
-                if p[0] == "None":
-                    return None
-            if len(p) == 2 and self.c.enum(p[0]) is not None:
-                return T(p[0])
-            if p == ["Ordering", "Less"] or p == ["Ordering", "Equal"] or p == ["Ordering", "Greater"]:
+            ev = self.enum_variant(p)
+            if ev and not ev[2]:
+                return T(ev[0])
+            if p[0] == "Ordering":
                 return T("Ordering")
             return None
         if k == "field":
@@ -997,7 +1255,7 @@ class FnTranslator:
                     for f, ft in st:
                         if f == e[2]:
                             return ft
-            if t and t[0] == "tup" and e[2].isdigit():
+            if t and t[0] == "tup" and e[2].isdigit() and int(e[2]) < len(t[1]):
                 return t[1][int(e[2])]
             return None
         if k == "binary":
@@ -1005,10 +1263,10 @@ class FnTranslator:
                 return T("bool")
             return self.ty_of(e[2], env) or self.ty_of(e[3], env)
         if k == "unary":
-            return T("bool") if e[1] == "!" and (self.ty_of(e[2], env) or T("bool"))[1] == "bool" else self.ty_of(e[2], env)
+            return self.ty_of(e[2], env)
         if k == "cast":
             return e[2]
-        if k in ("matches",):
+        if k == "matches":
             return T("bool")
         if k == "call":
             f = e[1]
@@ -1017,15 +1275,18 @@ class FnTranslator:
                 if p == ["Some"]:
                     a = self.ty_of(e[2][0], env)
                     return T("Option", a) if a else None
-                if p[-1] in ("max", "min") and len(e[2]) == 2:
-                    return self.ty_of(e[2][0], env) or self.ty_of(e[2][1], env)
                 info = self.lookup_fn(p)
                 if info:
-                    return info["ret"]
+                    return info["full_ret"]
+                if p[-1] in ("max", "min") and len(e[2]) == 2:
+                    return self.ty_of(e[2][0], env) or self.ty_of(e[2][1], env)
+                if len(p) == 2 and p[1] in ("default", "new") and self.c.struct(p[0] if p[0] != "Self" else self.impl) is not None and info is None:
+                    return T(p[0] if p[0] != "Self" else self.impl)
                 if len(p) == 1 and self.c.struct(p[0]) is not None:
                     return T(p[0])
-                if len(p) == 2 and self.c.enum(p[0]) is not None:
-                    return T(p[0])
+                ev = self.enum_variant(p)
+                if ev:
+                    return T(ev[0])
             return None
         if k == "mcall":
             rt = self.ty_of(e[1], env)
@@ -1044,11 +1305,17 @@ class FnTranslator:
                         return rt[2][0]
                     if m in ("is_some", "is_none"):
                         return T("bool")
-                if rt[1] in ("slice", "Vec"):
+                if is_list(rt):
                     if m == "len":
                         return T("usize")
                     if m == "is_empty":
                         return T("bool")
+                    if m in ("iter", "to_vec", "clone"):
+                        return rt
+                    if m in ("last", "first"):
+                        return T("Option", rt[2][0])
+                if m == "clone":
+                    return rt
             return None
         if k == "if":
             return self.ty_of(e[2], env) or (self.ty_of(e[3], env) if e[3] else None)
@@ -1059,7 +1326,7 @@ class FnTranslator:
                     t = s[2] or (self.ty_of(s[3], env2) if s[3] else None)
                     if t:
                         env2[s[1][1]] = self.c.resolve_self(t, self.impl)
-            return self.ty_of(e[2], env2) if e[2] else T("unit")
+            return self.ty_of(e[2], env2) if e[2] else UNIT
         if k == "struct":
             return T(e[1][-1] if e[1][-1] != "Self" else self.impl)
         if k == "tuple":
@@ -1067,21 +1334,28 @@ class FnTranslator:
             return ("tup", ts) if all(ts) else None
         if k == "index":
             t = self.ty_of(e[1], env)
-            if t and t[0] == "ty" and t[1] in ("slice", "Vec"):
-                return t[2][0]
+            if is_list(t):
+                return t if e[2][0] == "range" else t[2][0]
             return None
         if k == "try":
             t = self.ty_of(e[1], env)
-            return t[2][0] if t and t[1] == "Option" else None
+            return t[2][0] if t and t[0] == "ty" and t[1] in ("Option", "Result") else None
         if k == "match":
             for (_p, _g, b) in e[2]:
                 t = self.ty_of(b, env)
                 if t:
                     return t
+        if k == "veclit":
+            for x in e[1]:
+                t = self.ty_of(x, env)
+                if t:
+                    return T("Vec", t)
         return None
 
     def lookup_fn(self, path):
         p = list(path)
+        if len(p) == 1 and p[0] in self.local_fns:
+            return self.local_fns[p[0]]
         if p[0] == "Self":
             p[0] = self.impl
         if len(p) == 1:
@@ -1090,10 +1364,6 @@ class FnTranslator:
             return self.c.fn_info.get((p[0], p[1]))
         return None
 
-    # ---------------------------------------------------------------- literals
-    def int_lit(self, v, ty):
-        return "%d" % v
-
     # ---------------------------------------------------------------- patterns
     def pat(self, p, ty, env):
         """-> Coq pattern string; binds variables into env"""
@@ -1101,13 +1371,16 @@ class FnTranslator:
         if k == "pwild":
             return "_"
         if k == "pbind":
+            ev = self.variant_enum(p[1]) if p[1][0].isupper() else None
+            if ev and not ev[1]:
+                return "%s_%s" % (ev[0], p[1])
             if ty is not None:
                 env[p[1]] = ty
             elif p[1] in env:
                 del env[p[1]]
             return var(p[1])
         if k == "plit":
-            return "%d" % p[1]
+            return "%d%s" % (p[1], "%nat" if is_nat(ty) else "")
         if k == "pbool":
             return "true" if p[1] else "false"
         if k == "ptuple":
@@ -1121,8 +1394,9 @@ class FnTranslator:
                 return "None"
             if path[0] == "Ordering":
                 return {"Less": "Lt", "Equal": "Eq", "Greater": "Gt"}[path[1]]
-            if len(path) == 2 and self.c.enum(path[0] if path[0] != "Self" else self.impl) is not None:
-                return "%s_%s" % (path[0] if path[0] != "Self" else self.impl, path[1])
+            ev = self.enum_variant(path)
+            if ev:
+                return "%s_%s" % (ev[0], ev[1])
             c = self.c.const(path[-1])
             if c and c[1][0] == "int":
                 return "%d" % c[1][1]
@@ -1132,16 +1406,18 @@ class FnTranslator:
             if path == ["Some"]:
                 inner = ty[2][0] if ty and ty[0] == "ty" and ty[1] == "Option" else None
                 return "(Some %s)" % self.pat(p[2][0], inner, env)
+            if path in (["Ok"], ["Err"]):
+                inner = ty[2][0 if path == ["Ok"] else 1] if ty and ty[0] == "ty" and ty[1] == "Result" else None
+                return "(%s %s)" % (path[0], self.pat(p[2][0], inner, env))
             name = path[0] if path[0] != "Self" else self.impl
             if len(path) == 1 and self.c.struct(name) is not None:
                 fields = self.c.struct(name)
                 if len(fields) != len(p[2]):
                     raise Unsupported("tuple struct pattern arity")
                 return "(%s_mk %s)" % (name, " ".join(self.pat(x, ft, env) for x, (_f, ft) in zip(p[2], fields)))
-            if len(path) == 2 and self.c.enum(name) is not None:
-                for v, tys in self.c.enum(name):
-                    if v == path[1]:
-                        return "(%s_%s %s)" % (name, v, " ".join(self.pat(x, t, env) for x, t in zip(p[2], tys)))
+            ev = self.enum_variant(path)
+            if ev:
+                return "(%s_%s %s)" % (ev[0], ev[1], " ".join(self.pat(x, t, env) for x, t in zip(p[2], ev[2])))
             raise Unsupported("pattern " + "::".join(path))
         if k == "pstruct":
             name = p[1][-1] if p[1][-1] != "Self" else self.impl
@@ -1153,17 +1429,20 @@ class FnTranslator:
         raise Unsupported("pattern kind " + k)
 
     # ---------------------------------------------------------------- pure expressions
-    def arith_suffix(self, ty):
+    def arith_prefix(self, ty):
         t = ty[1] if is_int(ty) else self.c.default_int
         return INT_TYPES[t][1]
 
-    def pure(self, e, env):
+    def lit(self, v, want):
+        return "%d%%nat" % v if is_nat(want) else "%d" % v
+
+    def pure(self, e, env, want=None):
         """Gallina term for e if e cannot panic and has no control effect, else None"""
         k = e[0]
         if k == "rawterm":
             return e[1]
         if k == "int":
-            return "%d" % e[1]
+            return self.lit(e[1], T(e[2]) if e[2] else want)
         if k == "charlit":
             return "%d" % e[1]
         if k == "bool":
@@ -1177,15 +1456,17 @@ class FnTranslator:
                     return "None"
                 if self.c.const(p[0]):
                     return p[0]
-                info = self.lookup_fn(p)
+                ev = self.enum_variant(p)
+                if ev and not ev[2]:
+                    return "%s_%s" % (ev[0], ev[1])
                 raise Unsupported("unknown name " + p[0])
             if p[0] == "Ordering":
                 return {"Less": "Lt", "Equal": "Eq", "Greater": "Gt"}[p[1]]
-            if p[0] in ("u32", "usize", "i32") and p[1] == "MAX":
-                return {"u32": "U32MAX", "usize": "USZMAX"}[p[0]]
-            name = p[0] if p[0] != "Self" else self.impl
-            if len(p) == 2 and self.c.enum(name) is not None:
-                return "%s_%s" % (name, p[1])
+            if p[0] in ("u32",) and p[1] == "MAX":
+                return "U32MAX"
+            ev = self.enum_variant(p)
+            if ev and not ev[2]:
+                return "%s_%s" % (ev[0], ev[1])
             raise Unsupported("path " + "::".join(p))
         if k == "field":
             r = self.pure(e[1], env)
@@ -1195,10 +1476,7 @@ class FnTranslator:
             if t is None:
                 raise Unsupported("field access on a value of unknown type (.%s)" % e[2])
             if t[0] == "tup":
-                n = len(t[1])
-                if n != 2:
-                    raise Unsupported("tuple projection of arity %d" % n)
-                return "(%s %s)" % ("fst" if e[2] == "0" else "snd", r)
+                return tuple_proj(r, int(e[2]), len(t[1]))
             return "(%s_%s %s)" % (t[1], fld(e[2]), r)
         if k == "unary":
             a = self.pure(e[2], env)
@@ -1215,14 +1493,25 @@ class FnTranslator:
                 if a is None or b is None:
                     return None
                 return "(%s %s %s)" % (a, op, b)
+            ta = self.ty_of(e[2], env) or self.ty_of(e[3], env) or (want if op not in ("==", "!=", "<", ">", "<=", ">=") else None)
             if op in ("==", "!=", "<", ">", "<=", ">="):
-                a = self.pure(e[2], env)
-                b = self.pure(e[3], env)
+                a = self.pure(e[2], env, ta)
+                b = self.pure(e[3], env, ta)
                 if a is None or b is None:
                     return None
-                ta = self.ty_of(e[2], env) or self.ty_of(e[3], env)
                 return self.compare(op, a, b, ta)
-            return None                 # arithmetic can overflow
+            if is_nat(ta) and op in ("+", "*"):
+                a = self.pure(e[2], env, ta)
+                b = self.pure(e[3], env, ta)
+                if a is None or b is None:
+                    return None
+                return "(%s %s %s)%%nat" % (a, op, b)
+            if is_nat(ta) and op == "/" and e[3][0] == "int" and e[3][1] != 0:
+                a = self.pure(e[2], env, ta)
+                if a is None:
+                    return None
+                return "(Nat.div %s %d)" % (a, e[3][1])
+            return None                 # u32 arithmetic can overflow; any subtraction can underflow
         if k == "matches":
             a = self.pure(e[1], env)
             if a is None or e[3] is not None:
@@ -1234,49 +1523,63 @@ class FnTranslator:
             if f[0] != "path":
                 raise Unsupported("call of a computed function")
             p = f[1]
-            args = [self.pure(a, env) for a in e[2]]
+            info = self.lookup_fn(p)
+            ptys = [pt for (n_, pt) in info["params"] if n_ != "self"] if info else []
+            ev = self.enum_variant(p) if not info else None
+            if ev:
+                ptys = ev[2]
+            if p == ["Some"] and want is not None and want[0] == "ty" and want[1] == "Option":
+                ptys = [want[2][0]]
+            name = p[0] if p[0] != "Self" else self.impl
+            if not info and len(p) == 1 and self.c.struct(name) is not None:
+                ptys = [ft for _f, ft in self.c.struct(name)]
+            args = [self.pure(a, env, ptys[i] if i < len(ptys) else None) for i, a in enumerate(e[2])]
             if any(a is None for a in args):
                 return None
             if p == ["Some"]:
                 return "(Some %s)" % args[0]
-            if p[-1] in ("max", "min") and len(p) <= 2 and len(args) == 2 and self.lookup_fn(p) is None:
-                return "(N.%s %s %s)" % (p[-1], args[0], args[1])
-            info = self.lookup_fn(p)
+            if p in (["Ok"], ["Err"]):
+                return "(%s %s)" % (p[0], args[0])
             if info:
-                if not info["pure"]:
-                    return None
-                return "(%s%s)" % (info["coq"], "".join(" " + a for a in args))
-            name = p[0] if p[0] != "Self" else self.impl
+                return None          # translated functions are always called through their monadic view M_f
+            if p[-1] in ("max", "min") and len(p) <= 2 and len(args) == 2:
+                t = self.ty_of(e[2][0], env) or self.ty_of(e[2][1], env)
+                return "(%s.%s %s %s)" % ("Nat" if is_nat(t) else "N", p[-1], args[0], args[1])
+            if len(p) == 2 and p[1] == "default" and not args and "Default" in self.c.derives(name):
+                return "%s_default" % name
+            if len(p) == 2 and p == ["Vec", "new"]:
+                return "[]"
             if len(p) == 1 and self.c.struct(name) is not None:
                 return "(%s_mk%s)" % (name, "".join(" " + a for a in args))
-            if len(p) == 2 and self.c.enum(name) is not None:
-                return "(%s_%s%s)" % (name, p[1], "".join(" " + a for a in args))
+            if ev:
+                return "(%s_%s%s)" % (ev[0], ev[1], "".join(" " + a for a in args))
             raise Unsupported("call of %s (not in the translated set)" % "::".join(p))
         if k == "mcall":
-            r = self.pure(e[1], env)
-            args = [self.pure(a, env) for a in e[3]]
-            if r is None or any(a is None for a in args):
-                return None
-            rt = self.ty_of(e[1], env)
             m = e[2]
+            rt = self.ty_of(e[1], env)
+            if m in MUTATING_METHODS:
+                return None
+            if m in ("iter", "clone", "to_vec", "copied", "cloned") and not e[3]:
+                return self.pure(e[1], env)
+            r = self.pure(e[1], env)
+            if r is None:
+                return None
+            info = self.c.fn_info.get((rt[1], m)) if rt and rt[0] == "ty" else None
+            ptys = [pt for (n_, pt) in info["params"] if n_ != "self"] if info else ([rt] if is_int(rt) else [])
+            args = [self.pure(a, env, ptys[i] if i < len(ptys) else None) for i, a in enumerate(e[3])]
+            if any(a is None for a in args):
+                return None
             if rt and rt[0] == "ty":
-                info = self.c.fn_info.get((rt[1], m))
                 if info:
-                    if not info["pure"]:
-                        return None
-                    return "(%s %s%s)" % (info["coq"], r, "".join(" " + a for a in args))
+                    return None      # translated functions are always called through their monadic view M_f
                 if is_int(rt):
-                    sfx = INT_TYPES[rt[1]][1]
-                    if m == "checked_add":
-                        return "(%s_add %s %s)" % (sfx, r, args[0])
-                    if m == "checked_mul":
-                        return "(%s_mul %s %s)" % (sfx, r, args[0])
-                    if m == "checked_sub":
-                        return "(%s_sub %s %s)" % (sfx, r, args[0])
+                    pre = INT_TYPES[rt[1]][1]
+                    if m in ("checked_add", "checked_mul", "checked_sub"):
+                        return "(%s_%s %s %s)" % (pre, m[8:], r, args[0])
                     if m == "saturating_sub":
-                        return "(N.sub %s %s)" % (r, args[0])
+                        return "(%s.sub %s %s)" % ("Nat" if is_nat(rt) else "N", r, args[0])
                     if m in ("min", "max"):
-                        return "(N.%s %s %s)" % (m, r, args[0])
+                        return "(%s.%s %s %s)" % ("Nat" if is_nat(rt) else "N", m, r, args[0])
                 if rt[1] == "Option":
                     if m == "is_some":
                         return "match %s with Some _ => true | None => false end" % r
@@ -1286,11 +1589,15 @@ class FnTranslator:
                         return "match %s with Some x_ => x_ | None => %s end" % (r, args[0])
                     if m in ("unwrap", "expect"):
                         return None
-                if rt[1] in ("slice", "Vec"):
+                if is_list(rt):
                     if m == "len":
-                        return "(N.of_nat (length %s))" % r
+                        return "(length %s)" % r
                     if m == "is_empty":
-                        return "match %s with [] => true | _ => false end" % r
+                        return "match %s with [] => true | _ :: _ => false end" % r
+                    if m == "last":
+                        return "(last_opt %s)" % r
+                    if m == "first":
+                        return "(hd_error %s)" % r
             if rt is None:
                 raise Unsupported("method .%s on a value of unknown type" % m)
             raise Unsupported("method %s.%s" % (rt[1] if rt[0] == "ty" else "tuple", m))
@@ -1301,49 +1608,68 @@ class FnTranslator:
                 raise Unsupported("struct literal " + name)
             given = dict(e[2])
             args = []
-            for f, _ft in fields:
+            for f, ft in fields:
                 if f not in given:
                     raise Unsupported("missing field " + f)
-                a = self.pure(given[f], env)
+                a = self.pure(given[f], env, ft)
                 if a is None:
                     return None
                 args.append(a)
             return "(%s_mk%s)" % (name, "".join(" " + a for a in args))
         if k == "tuple":
-            args = [self.pure(a, env) for a in e[1]]
+            wts = want[1] if want and want[0] == "tup" else [None] * len(e[1])
+            args = [self.pure(a, env, wt) for a, wt in zip(e[1], wts)]
             if any(a is None for a in args):
                 return None
             return "(" + ", ".join(args) + ")"
+        if k == "veclit":
+            wt = want[2][0] if is_list(want) else None
+            args = [self.pure(a, env, wt) for a in e[1]]
+            if any(a is None for a in args):
+                return None
+            return "[" + "; ".join(args) + "]"
         if k == "cast":
             a = self.pure(e[1], env)
             if a is None:
                 return None
             src = self.ty_of(e[1], env)
             dst = e[2]
-            if is_int(dst) and (src is None or is_int(src) or src[1] == "char"):
-                s = (src[1] if src else self.c.default_int)
+            if is_int(dst) and (src is None or is_int(src)):
+                s_ = (src[1] if src else self.c.default_int)
                 width = {"u8": 8, "u32": 32, "usize": 64, "u64": 64, "char": 32}
-                if width[s] <= width[dst[1]]:
-                    return a
-                return "(N.modulo %s %d)" % (a, 2 ** width[dst[1]])
+                conv = a
+                if is_nat(T(s_)) and not is_nat(dst):
+                    conv = "(N.of_nat %s)" % a
+                if not is_nat(T(s_)) and is_nat(dst):
+                    return "(N.to_nat %s)" % a
+                if width[s_] <= width[dst[1]]:
+                    return conv
+                return "(N.modulo %s %d)" % (conv, 2 ** width[dst[1]])
             raise Unsupported("cast")
         if k == "if":
             c = self.pure(e[1], env)
             if c is None or e[3] is None:
                 return None
-            a = self.pure(e[2], env)
-            b = self.pure(e[3], env)
+            a = self.pure(e[2], env, want)
+            b = self.pure(e[3], env, want)
             if a is None or b is None:
                 return None
             return "(if %s then %s else %s)" % (c, a, b)
         if k == "block":
             if not e[1] and e[2] is not None:
-                return self.pure(e[2], env)
+                return self.pure(e[2], env, want)
             return None
         return None
 
     def compare(self, op, a, b, ty):
-        if ty is None or is_int(ty) or (ty[0] == "ty" and ty[1] == "char"):
+        if is_nat(ty):
+            m = {"==": "(Nat.eqb %s %s)", "!=": "(negb (Nat.eqb %s %s))", "<": "(Nat.ltb %s %s)", "<=": "(Nat.leb %s %s)"}
+            if op == ">":
+                return "(Nat.ltb %s %s)" % (b, a)
+            if op == ">=":
+                return "(Nat.leb %s %s)" % (b, a)
+            return m[op] % (a, b)
+        if ty is None or is_int(ty):
             m = {"==": "(%s =? %s)", "!=": "(negb (%s =? %s))", "<": "(%s <? %s)", "<=": "(%s <=? %s)"}
             if op == ">":
                 return "(%s <? %s)" % (b, a)
@@ -1354,95 +1680,153 @@ class FnTranslator:
             r = "(Bool.eqb %s %s)" % (a, b)
             return r if op == "==" else "(negb %s)" % r
         if ty[0] == "ty" and (self.c.struct(ty[1]) is not None or self.c.enum(ty[1]) is not None) and op in ("==", "!="):
+            if "PartialEq" not in self.c.derives(ty[1]):
+                raise Unsupported("== on %s without derived PartialEq" % ty[1])
             r = "(%s_eqb %s %s)" % (ty[1], a, b)
             return r if op == "==" else "(negb %s)" % r
         raise Unsupported("comparison %s at type %s" % (op, ty))
 
+    # ---------------------------------------------------------------- places (assignment targets)
+    def place_update(self, place, newval, env):
+        """-> (root variable, term for the new value of the root) for `place = newval`"""
+        if place[0] == "path" and len(place[1]) == 1:
+            if place[1][0] not in env and place[1][0] != "self":
+                raise Unsupported("assignment to unknown variable " + place[1][0])
+            return place[1][0], newval
+        if place[0] == "field":
+            base = place[1]
+            bt = self.ty_of(base, env)
+            bterm = self.pure(base, env)
+            if bt is None or bterm is None:
+                raise Unsupported("assignment through a computed place")
+            if bt[0] == "tup":
+                n = len(bt[1])
+                comps = [newval if i == int(place[2]) else tuple_proj(bterm, i, n) for i in range(n)]
+                return self.place_update(base, "(" + ", ".join(comps) + ")", env)
+            st = self.c.struct(bt[1])
+            if st is None:
+                raise Unsupported("field assignment on " + bt[1])
+            comps = [newval if f == place[2] else "(%s_%s %s)" % (bt[1], fld(f), bterm) for f, _ft in st]
+            return self.place_update(base, "(%s_mk %s)" % (bt[1], " ".join(comps)), env)
+        raise Unsupported("assignment target")
+
     # ---------------------------------------------------------------- monadic translation (CPS)
-    # tr(e, env, k): Gallina term of type `option RET`; k(term) builds the rest of the function from
-    # the pure value of e.  RETURN(v) = "Some v".
-    def tr(self, e, env, k):
-        p = self.pure(e, env)
+    # tr(e, env, k): Gallina term of type `option <result of the function / loop>`; k(term) builds the rest
+    # from the pure value of e.
+    def tr(self, e, env, k, want=None):
+        p = self.pure(e, env, want)
         if p is not None:
             return k(p)
-        self.can_panic_possible = True
         kind = e[0]
         if kind == "binary":
             op = e[1]
             if op in ("&&", "||"):
-                # short circuit: the right operand is evaluated only if needed
                 def after_a(a):
                     t = self.c.fresh()
-                    rhs = self.tr(e[3], env, RETURN)
                     if has_exit(e[3]):
                         raise Unsupported("early exit in the right operand of %s" % op)
+                    rhs = self.tr(e[3], env, RETURN)
                     if op == "&&":
                         return "do %s <- (if %s then %s else Some false);\n%s" % (t, a, rhs, k(t))
                     return "do %s <- (if %s then Some true else %s);\n%s" % (t, a, rhs, k(t))
                 return self.tr(e[2], env, after_a)
-            ta = self.ty_of(e[2], env) or self.ty_of(e[3], env)
+            ta = self.ty_of(e[2], env) or self.ty_of(e[3], env) or (want if op in ("+", "-", "*", "/") else None)
             if op in ("==", "!=", "<", ">", "<=", ">="):
-                return self.tr(e[2], env, lambda a: self.tr(e[3], env, lambda b: k(self.compare(op, a, b, ta))))
-            if op in ("+", "-", "*"):
-                sfx = self.arith_suffix(ta)
-                fn = sfx + "_" + {"+": "add", "-": "sub", "*": "mul"}[op]
+                return self.tr(e[2], env, lambda a: self.tr(e[3], env, lambda b: k(self.compare(op, a, b, ta)), ta), ta)
+            if op in ("+", "-", "*", "/"):
+                fn = self.arith_prefix(ta) + "_" + {"+": "add", "-": "sub", "*": "mul", "/": "div"}[op]
 
                 def fin(a, b):
                     t = self.c.fresh()
                     return "do %s <- %s %s %s;\n%s" % (t, fn, a, b, k(t))
-                return self.tr(e[2], env, lambda a: self.tr(e[3], env, lambda b: fin(a, b)))
+                return self.tr(e[2], env, lambda a: self.tr(e[3], env, lambda b: fin(a, b), ta), ta)
             raise Unsupported("operator " + op)
         if kind == "unary":
             if e[1] == "!":
                 return self.tr(e[2], env, lambda a: k("(negb %s)" % a))
             raise Unsupported("unary " + e[1])
         if kind == "field":
-            return self.tr(e[1], env, lambda r: k(self.pure(("field", ("rawterm", r, self.ty_of(e[1], env)), e[2]), env)))
-        if kind == "rawterm":
-            return k(e[1])
+            bt = self.ty_of(e[1], env)
+            return self.tr(e[1], env, lambda r: k(self.pure(("field", ("rawterm", r, bt), e[2]), env)))
         if kind == "try":
             def after(v):
                 t = self.c.fresh()
-                return "match %s with\n| None => Some None\n| Some %s =>\n%s\nend" % (v, t, k(t))
+                vt = self.ty_of(e[1], env)
+                if vt and vt[0] == "ty" and vt[1] == "Result":
+                    return "match %s with\n| Err e_ => %s\n| Ok %s =>\n%s\nend" % (v, self.ret_k("(Err e_)"), t, k(t))
+                return "match %s with\n| None => %s\n| Some %s =>\n%s\nend" % (v, self.ret_k("None"), t, k(t))
             return self.tr(e[1], env, after)
         if kind == "return":
             if e[1] is None:
-                return "Some tt"
-            return self.tr(e[1], env, RETURN)
+                return self.ret_k("tt")
+            return self.tr(e[1], env, self.ret_k, self.ret)
         if kind == "panic":
             return "None"
+        if kind == "break":
+            if self.break_k is None:
+                raise Unsupported("break outside a loop")
+            return self.break_k()
+        if kind == "continue":
+            if self.continue_k is None:
+                raise Unsupported("continue outside a loop")
+            return self.continue_k()
+        if kind == "assign":
+            op, lhs, rhs = e[1], e[2], e[3]
+            lt = self.ty_of(lhs, env)
+            if op != "=":
+                rhs = ("binary", op[:-1], lhs, rhs)
+
+            def after(v):
+                root, term = self.place_update(lhs, v, env)
+                return "let %s := %s in\n%s" % (var(root), term, k("tt"))
+            return self.tr(rhs, env, after, lt)
         if kind == "call":
             f = e[1]
             if f[0] != "path":
                 raise Unsupported("call of a computed function")
             p = f[1]
+            info = self.lookup_fn(p)
+            ptys = [pt for (n_, pt) in info["params"] if n_ != "self"] if info else []
+            ev = self.enum_variant(p) if not info else None
+            if ev:
+                ptys = ev[2]
 
             def with_args(args):
-                if p == ["Some"]:
-                    return k("(Some %s)" % args[0])
-                info = self.lookup_fn(p)
                 if info:
-                    call = "%s%s" % (info["coq"], "".join(" " + a for a in args))
-                    if info["pure"]:
-                        return k("(%s)" % call)
+                    call = "M_%s%s%s" % (info["coq"], " fuel" if info["fuel"] else "", "".join(" " + a for a in args))
+                    if info["fuel"]:
+                        self.uses_fuel = True
                     t = self.c.fresh()
                     return "do %s <- %s;\n%s" % (t, call, k(t))
-                return k(self.pure(("call", f, [("rawterm", a, None) for a in args]), env))
-            return self.tr_list(e[2], env, with_args)
+                return k(self.pure(("call", f, [("rawterm", a, None) for a in args]), env, want))
+            return self.tr_list(e[2], env, with_args, ptys)
         if kind == "mcall":
             rt = self.ty_of(e[1], env)
             m = e[2]
+            info = self.c.fn_info.get((rt[1], m)) if rt and rt[0] == "ty" else None
+            if info and info["mutself"]:
+                return self.tr_mutcall(e, env, k, info)
+            if is_list(rt) and m == "push":
+                def after_push(v):
+                    recv = self.pure(e[1], env)
+                    if recv is None:
+                        raise Unsupported("push on a computed place")
+                    root, term = self.place_update(e[1], "(%s ++ [%s])" % (recv, v), env)
+                    return "let %s := %s in\n%s" % (var(root), term, k("tt"))
+                return self.tr(e[3][0], env, after_push, rt[2][0])
+            ptys = [pt for (n_, pt) in info["params"] if n_ != "self"] if info else ([rt] if is_int(rt) else [])
 
             def with_all(vals):
                 r, args = vals[0], vals[1:]
-                if rt and rt[0] == "ty":
-                    info = self.c.fn_info.get((rt[1], m))
-                    if info and not info["pure"]:
-                        t = self.c.fresh()
-                        return "do %s <- %s %s%s;\n%s" % (t, info["coq"], r, "".join(" " + a for a in args), k(t))
-                    if rt[1] == "Option" and m in ("unwrap", "expect"):
-                        t = self.c.fresh()
-                        return "do %s <- %s;\n%s" % (t, r, k(t))
+                if info:
+                    if info["fuel"]:
+                        self.uses_fuel = True
+                    t = self.c.fresh()
+                    return "do %s <- M_%s%s %s%s;\n%s" % (t, info["coq"], " fuel" if info["fuel"] else "", r,
+                                                           "".join(" " + a for a in args), k(t))
+                if rt and rt[0] == "ty" and rt[1] == "Option" and m in ("unwrap", "expect"):
+                    t = self.c.fresh()
+                    return "do %s <- %s;\n%s" % (t, r, k(t))
                 res = self.pure(("mcall", ("rawterm", r, rt), m, [("rawterm", a, None) for a in args]), env)
                 if res is None:
                     raise Unsupported("method ." + m)
@@ -1450,7 +1834,7 @@ class FnTranslator:
             arg_es = list(e[3])
             if rt and rt[0] == "ty" and rt[1] == "Option" and m == "expect":
                 arg_es = []
-            return self.tr_list([e[1]] + arg_es, env, with_all)
+            return self.tr_list([e[1]] + arg_es, env, with_all, [None] + ptys)
         if kind == "struct":
             name = e[1][-1] if e[1][-1] != "Self" else self.impl
             fields = self.c.struct(name)
@@ -1458,27 +1842,48 @@ class FnTranslator:
                 raise Unsupported("struct literal " + name)
             given = dict(e[2])
             return self.tr_list([given[f] for f, _ in fields], env,
-                                lambda args: k("(%s_mk%s)" % (name, "".join(" " + a for a in args))))
+                                lambda args: k("(%s_mk%s)" % (name, "".join(" " + a for a in args))), [ft for _f, ft in fields])
         if kind == "tuple":
-            return self.tr_list(e[1], env, lambda args: k("(" + ", ".join(args) + ")"))
+            wts = want[1] if want and want[0] == "tup" else None
+            return self.tr_list(e[1], env, lambda args: k("(" + ", ".join(args) + ")"), wts)
+        if kind == "veclit":
+            wt = want[2][0] if is_list(want) else None
+            return self.tr_list(e[1], env, lambda args: k("[" + "; ".join(args) + "]"), [wt] * len(e[1]))
         if kind == "cast":
-            return self.tr(e[1], env, lambda a: k(self.pure(("cast", ("rawterm", a, self.ty_of(e[1], env)), e[2]), env)))
+            st = self.ty_of(e[1], env)
+            return self.tr(e[1], env, lambda a: k(self.pure(("cast", ("rawterm", a, st), e[2]), env)))
         if kind == "matches":
-            return self.tr(e[1], env, lambda a: k(self.pure(("matches", ("rawterm", a, self.ty_of(e[1], env)), e[2], e[3]), env)))
+            st = self.ty_of(e[1], env)
+            return self.tr(e[1], env, lambda a: k(self.pure(("matches", ("rawterm", a, st), e[2], e[3]), env)))
         if kind == "assert":
             return self.tr(e[1], env, lambda c: "if %s then\n%s\nelse None" % (c, k("tt")))
         if kind == "skip":
             return k("tt")
+        if kind == "index":
+            rt = self.ty_of(e[1], env)
+            if not is_list(rt):
+                raise Unsupported("indexing a value that is not a slice / Vec")
+            if e[2][0] == "range":
+                lo, hi = e[2][1], e[2][2]
+                if hi is not None or lo is None:
+                    raise Unsupported("slice range other than [lo..]")
+
+                def sl(r, a):
+                    return "if Nat.leb %s (length %s) then\n%s\nelse None" % (a, r, k("(skipn %s %s)" % (a, r)))
+                return self.tr(e[1], env, lambda r: self.tr(lo, env, lambda a: sl(r, a), T("usize")))
+
+            def ix(r, a):
+                t = self.c.fresh()
+                return "do %s <- nth_error %s %s;\n%s" % (t, r, a, k(t))
+            return self.tr(e[1], env, lambda r: self.tr(e[2], env, lambda a: ix(r, a), T("usize")))
         if kind == "if":
             els = e[3] if e[3] is not None else ("block", [], None)
 
             def after_c(c):
-                if has_exit(e[2]) or has_exit(els):
-                    return "if %s then\n%s\nelse\n%s" % (c, self.tr(e[2], env, k), self.tr(els, env, k))
-                a = self.tr(e[2], env, RETURN)
-                b = self.tr(els, env, RETURN)
-                if k is RETURN:
-                    return "if %s then\n%s\nelse\n%s" % (c, a, b)
+                if has_exit(e[2]) or has_exit(els) or k is RETURN or k is self.ret_k:
+                    return "if %s then\n%s\nelse\n%s" % (c, self.tr(e[2], env, k, want), self.tr(els, env, k, want))
+                a = self.tr(e[2], env, RETURN, want)
+                b = self.tr(els, env, RETURN, want)
                 t = self.c.fresh()
                 return "do %s <- (if %s then\n%s\nelse\n%s);\n%s" % (t, c, a, b, k(t))
             return self.tr(e[1], env, after_c)
@@ -1486,32 +1891,60 @@ class FnTranslator:
             if any(g is not None for (_p, g, _b) in e[2]):
                 raise Unsupported("match guard")
             st = self.ty_of(e[1], env)
-            exits = any(has_exit(b) for (_p, _g, b) in e[2])
+            exits = any(has_exit(b) for (_p, _g, b) in e[2]) or k is RETURN or k is self.ret_k
 
             def after_s(s):
                 arms = []
-                for (p, _g, b) in e[2]:
+                for (p_, _g, b) in e[2]:
                     env2 = dict(env)
-                    ps = self.pat(p, st, env2)
-                    if exits or k is RETURN:
-                        arms.append("| %s =>\n%s" % (ps, self.tr(b, env2, k)))
-                    else:
-                        arms.append("| %s =>\n%s" % (ps, self.tr(b, env2, RETURN)))
+                    ps = self.pat(p_, st, env2)
+                    arms.append("| %s =>\n%s" % (ps, self.tr(b, env2, k if exits else RETURN, want)))
                 m = "match %s with\n%s\nend" % (s, "\n".join(arms))
-                if exits or k is RETURN:
+                if exits:
                     return m
                 t = self.c.fresh()
                 return "do %s <- (%s);\n%s" % (t, m, k(t))
             return self.tr(e[1], env, after_s)
         if kind == "block":
-            return self.tr_block(e[1], e[2], env, k)
-        if kind == "index":
-            raise Unsupported("indexing")
-        if kind in ("while", "for", "loop", "break", "continue", "assign", "iflet", "veclit", "range", "strlit"):
+            return self.tr_block(e[1], e[2], env, k, want)
+        if kind == "while":
+            return self.tr_while(e[1], e[2], env, k)
+        if kind == "loop":
+            return self.tr_while(("bool", True), e[1], env, k)
+        if kind == "for":
+            return self.tr_for(e[1], e[2], e[3], env, k)
+        if kind in ("iflet", "range", "strlit"):
             raise Unsupported(kind)
         raise Unsupported("expression kind " + kind)
 
-    def tr_list(self, es, env, k):
+    break_k = None
+    continue_k = None
+
+    def tr_mutcall(self, e, env, k, info):
+        """recv.method(args) where method takes &mut self: recv is rebound to the new value"""
+        recv = e[1]
+        ptys = [pt for (n_, pt) in info["params"] if n_ != "self"]
+
+        def with_args(args):
+            r = self.pure(recv, env)
+            if r is None:
+                raise Unsupported("&mut method on a computed place")
+            call = "M_%s%s %s%s" % (info["coq"], " fuel" if info["fuel"] else "", r, "".join(" " + a for a in args))
+            if info["fuel"]:
+                self.uses_fuel = True
+            t = self.c.fresh()
+            if info["ret"] == UNIT:
+                newv, res = t, "tt"
+                bind = "do %s <- %s;\n" % (t, call)
+            else:
+                t2 = self.c.fresh()
+                newv, res = t, t2
+                bind = "do '(%s, %s) <- %s;\n" % (t, t2, call)
+            root, term = self.place_update(recv, newv, env)
+            return "%slet %s := %s in\n%s" % (bind, var(root), term, k(res))
+        return self.tr_list(e[3], env, with_args, ptys)
+
+    def tr_list(self, es, env, k, wants=None):
         vals = []
 
         def go(i):
@@ -1523,88 +1956,232 @@ class FnTranslator:
                 r = go(i + 1)
                 vals.pop()
                 return r
-            return self.tr(es[i], env, got)
+            return self.tr(es[i], env, got, wants[i] if wants and i < len(wants) else None)
         return go(0)
 
-    def tr_block(self, stmts, tail, env, k):
+    def tr_block(self, stmts, tail, env, k, want=None):
         if not stmts:
             if tail is None:
                 return k("tt")
-            return self.tr(tail, env, k)
+            return self.tr(tail, env, k, want)
         s, rest = stmts[0], stmts[1:]
+        if s[0] == "use":
+            if s[2]:
+                self.globs.append(s[1][-1])
+            return self.tr_block(rest, tail, env, k, want)
+        if s[0] == "fn":
+            return self.tr_block(rest, tail, env, k, want)          # nested fns are translated as separate definitions
         if s[0] == "let":
             if s[3] is None:
                 raise Unsupported("let without initialiser")
             ty = s[2] or self.ty_of(s[3], env)
+            if ty is None and s[1][0] == "pbind":
+                ty = self.locals.get(s[1][1])
             if ty is not None:
                 ty = self.c.resolve_self(ty, self.impl)
 
             def after(v):
                 env2 = dict(env)
-                if s[1][0] == "pbind":
-                    ps = self.pat(s[1], ty, env2)
-                    return "let %s := %s in\n%s" % (ps, v, self.tr_block(rest, tail, env2, k))
                 ps = self.pat(s[1], ty, env2)
-                return "let '%s := %s in\n%s" % (ps, v, self.tr_block(rest, tail, env2, k))
-            return self.tr(s[3], env, after)
+                if s[1][0] == "pbind":
+                    return "let %s := %s in\n%s" % (ps, v, self.tr_block(rest, tail, env2, k, want))
+                return "let '%s := %s in\n%s" % (ps, v, self.tr_block(rest, tail, env2, k, want))
+            return self.tr(s[3], env, after, ty)
         e = s[1]
         if e[0] == "skip":
-            return self.tr_block(rest, tail, env, k)
-        return self.tr(e, env, lambda _v: self.tr_block(rest, tail, env, k))
+            return self.tr_block(rest, tail, env, k, want)
+        return self.tr(e, env, lambda _v: self.tr_block(rest, tail, env, k, want))
+
+    # ---------------------------------------------------------------- loops
+    def loop_frame(self, parts, env, extra_bound=()):
+        """(mutated vars, free vars) of a loop made of the AST parts"""
+        bound_inside = set()
+        for p_ in parts:
+            bound_inside |= let_bound(p_)
+        mut = [v for p_ in parts for v in assigned_vars(p_)]
+        mut = [v for i, v in enumerate(mut) if v not in mut[:i] and (v in env or v == "self")]
+        used = [v for p_ in parts for v in used_vars(p_)]
+        free = []
+        for v in used:
+            if v in mut or v in free or v in extra_bound:
+                continue
+            if v in env or v == "self":
+                free.append(v)
+        return mut, free
+
+    def tuple_of(self, names):
+        if not names:
+            return "tt"
+        return "(" + ", ".join(var(n) for n in names) + ")" if len(names) > 1 else var(names[0])
+
+    def tuple_ty(self, names, env):
+        if not names:
+            return "unit"
+        return "(" + " * ".join(self.c.coq_ty(self.var_ty(n, env)) for n in names) + ")%type" if len(names) > 1 else self.c.coq_ty(self.var_ty(names[0], env))
+
+    def var_ty(self, n, env):
+        if n in env:
+            return env[n]
+        if n == "self":
+            return T(self.impl)
+        raise Unsupported("type of the loop variable %s is unknown" % n)
+
+    def after_loop(self, call, mut, k):
+        r = self.c.fresh("r")
+        x = self.c.fresh("x")
+        pat_ = self.tuple_of(mut) if mut else "_"
+        return ("do %s <- %s;\nmatch %s with\n| LoopReturn %s => Some %s\n| LoopDone %s =>\n%s\nend"
+                % (r, call, r, x, x if self.in_loop_result else x, pat_, k("tt")))
+
+    in_loop_result = False
+
+    def tr_while(self, cond, body, env, k):
+        mut, free = self.loop_frame([cond, body], env)
+        self.nloops += 1
+        name = "%s_loop%d" % (self.coq_name, self.nloops)
+        self.uses_fuel = True
+        binders = "".join(" (%s : %s)" % (var(n), self.c.coq_ty(self.var_ty(n, env))) for n in free + mut)
+        mt = self.tuple_ty(mut, env)
+        rett = "(loopres %s %s)" % (self.c.coq_ty(self.full_ret), mt)
+        call_again = "%s fuel%s" % (name, "".join(" " + var(n) for n in free + mut))
+        saved = (self.ret_k, self.break_k, self.continue_k)
+        outer_ret = self.ret_k
+        self.ret_k = lambda v: "Some (LoopReturn %s)" % self.finish(v)
+        self.break_k = lambda: "Some (LoopDone %s)" % self.tuple_of(mut)
+        self.continue_k = lambda: call_again
+        body_code = self.tr(cond, env, lambda c: "if %s then\n%s\nelse Some (LoopDone %s)" % (
+            c, self.tr(body, env, lambda _v: call_again), self.tuple_of(mut)))
+        self.ret_k, self.break_k, self.continue_k = saved
+        self.aux.append("Fixpoint %s (fuel : nat)%s {struct fuel} : option %s :=\n  match fuel with\n  | O => None\n  | S fuel =>\n%s\n  end."
+                        % (name, binders, rett, indent(peephole(body_code), 4)))
+        self.c.aux_names.append(name)
+        r = self.c.fresh("r")
+        x = self.c.fresh("x")
+        return ("do %s <- %s fuel%s;\nmatch %s with\n| LoopReturn %s => %s\n| LoopDone %s =>\n%s\nend"
+                % (r, name, "".join(" " + var(n) for n in free + mut), r, x, self.propagate(x), self.tuple_of(mut) if mut else "_", k("tt")))
+
+    def propagate(self, x):
+        """a `return` inside a loop leaves the function: x is already the finished result"""
+        if self.ret_k_is_loop():
+            return "Some (LoopReturn %s)" % x
+        return "Some %s" % x
+
+    def ret_k_is_loop(self):
+        return self.break_k is not None
+
+    def tr_for(self, pat_, it, body, env, k):
+        # iterable: a slice / Vec (possibly through .iter(), & or a [lo..] slice)
+        itt = self.ty_of(it, env)
+        if not is_list(itt):
+            raise Unsupported("for loop over something that is not a slice / Vec")
+        elt = itt[2][0]
+        env_b = dict(env)
+        bound = set()
+
+        def pv(p_):
+            if p_[0] == "pbind":
+                bound.add(p_[1])
+            if p_[0] == "ptuple":
+                for q in p_[1]:
+                    pv(q)
+        pv(pat_)
+        mut, free = self.loop_frame([body], env, extra_bound=bound)
+        self.nloops += 1
+        name = "%s_loop%d" % (self.coq_name, self.nloops)
+        binders = "".join(" (%s : %s)" % (var(n), self.c.coq_ty(self.var_ty(n, env))) for n in free + mut)
+        mt = self.tuple_ty(mut, env)
+        rett = "(loopres %s %s)" % (self.c.coq_ty(self.full_ret), mt)
+        call_again = "%s l_%s" % (name, "".join(" " + var(n) for n in free + mut))
+        saved = (self.ret_k, self.break_k, self.continue_k)
+        self.ret_k = lambda v: "Some (LoopReturn %s)" % self.finish(v)
+        self.break_k = lambda: "Some (LoopDone %s)" % self.tuple_of(mut)
+        self.continue_k = lambda: call_again
+        ps = self.pat(pat_, elt, env_b)
+        body_code = self.tr(body, env_b, lambda _v: call_again)
+        self.ret_k, self.break_k, self.continue_k = saved
+        bindpat = "let %s := x_ in" % ps if pat_[0] == "pbind" else "let '%s := x_ in" % ps
+        self.aux.append("Fixpoint %s (l_ : list %s)%s {struct l_} : option %s :=\n  match l_ with\n  | [] => Some (LoopDone %s)\n  | x_ :: l_ =>\n    %s\n%s\n  end."
+                        % (name, self.c.coq_ty(elt), binders, rett, self.tuple_of(mut), bindpat, indent(peephole(body_code), 4)))
+        self.c.aux_names.append(name)
+
+        def after_it(l):
+            r = self.c.fresh("r")
+            x = self.c.fresh("x")
+            return ("do %s <- %s %s%s;\nmatch %s with\n| LoopReturn %s => %s\n| LoopDone %s =>\n%s\nend"
+                    % (r, name, l, "".join(" " + var(n) for n in free + mut), r, x, self.propagate(x),
+                       self.tuple_of(mut) if mut else "_", k("tt")))
+        return self.tr(it, env, after_it)
 
     # ---------------------------------------------------------------- whole function
-    def translate(self, coq_name):
+    def translate(self):
         env = {}
         binders = []
         for n, t in self.params:
             env[n] = t
             binders.append("(%s : %s)" % (var(n), self.c.coq_ty(t)))
-        rty = self.c.coq_ty(self.ret)
-        body_pure = None
-        if not has_exit(self.body):
-            body_pure = self.pure_block(self.body, env)
+        # `use E::*` statements anywhere in the body open E's variants
+        def uses(x):
+            if x[0] == "use" and x[2]:
+                self.globs.append(x[1][-1])
+        walk(self.body, uses)
+        self.locals = self.infer_locals(env)
+        rty = self.c.coq_ty(self.full_ret)
         args = "".join(" " + var(n) for n, _t in self.params)
+        body_pure = None
+        if not has_exit(self.body) and not has_kind(self.body, ("while", "for", "loop")) and not self.mutself:
+            body_pure = self.pure_block(self.body, env, self.ret)
+        name = self.coq_name
         if body_pure is not None:
-            wrapper = "Definition M_%s %s : option %s := Some (%s%s)." % (coq_name, " ".join(binders), rty, coq_name, args)
-            return True, "Definition %s %s : %s :=\n%s.\n%s" % (coq_name, " ".join(binders), rty, indent(body_pure), wrapper)
-        term = self.tr(self.body, env, RETURN)
-        wrapper = "Definition M_%s %s : option %s := %s%s." % (coq_name, " ".join(binders), rty, coq_name, args)
-        return False, "Definition %s %s : option %s :=\n%s.\n%s" % (coq_name, " ".join(binders), rty, indent(peephole(term)), wrapper)
+            wrapper = "Definition M_%s %s : option %s := Some (%s%s)." % (name, " ".join(binders), rty, name, args)
+            return True, False, "Definition %s %s : %s :=\n%s.\n%s" % (name, " ".join(binders), rty, indent(body_pure), wrapper)
+        term = self.tr(self.body, env, self.ret_k, self.ret)
+        fuel = self.uses_fuel
+        fb = "(fuel : nat) " if fuel else ""
+        fa = " fuel" if fuel else ""
+        # a mutating / early-exit body that still cannot fail is not detected as pure; callers bind it monadically
+        wrapper = "Definition M_%s %s%s : option %s := %s%s%s." % (name, fb, " ".join(binders), rty, name, fa, args)
+        text = "\n".join(self.aux + ["Definition %s %s%s : option %s :=\n%s.\n%s" % (name, fb, " ".join(binders), rty, indent(peephole(term)), wrapper)])
+        return False, fuel, text
 
-    def pure_block(self, b, env):
+    def pure_block(self, b, env, want=None):
         """pure rendering of a block made of lets and a pure tail"""
         if b[0] != "block":
-            return self.pure(b, env)
+            return self.pure(b, env, want)
         env2 = dict(env)
         lines = []
         for s in b[1]:
             if s[0] == "expr" and s[1][0] == "skip":
                 continue
-            if s[0] != "let" or s[3] is None or s[1][0] != "pbind":
-                return None
-            v = self.pure_any(s[3], env2)
-            if v is None:
+            if s[0] in ("use", "fn"):
+                continue
+            if s[0] != "let" or s[3] is None:
                 return None
             ty = s[2] or self.ty_of(s[3], env2)
+            if ty is None and s[1][0] == "pbind":
+                ty = self.locals.get(s[1][1])
             if ty is not None:
                 ty = self.c.resolve_self(ty, self.impl)
-            lines.append("let %s := %s in" % (self.pat(s[1], ty, env2), v))
+            v = self.pure_any(s[3], env2, ty)
+            if v is None:
+                return None
+            ps = self.pat(s[1], ty, env2)
+            lines.append(("let %s := %s in" if s[1][0] == "pbind" else "let '%s := %s in") % (ps, v))
         if b[2] is None:
             return None
-        t = self.pure_any(b[2], env2)
+        t = self.pure_any(b[2], env2, want)
         if t is None:
             return None
         return "\n".join(lines + [t])
 
-    def pure_any(self, e, env):
+    def pure_any(self, e, env, want=None):
         """pure term for e, including if / match / blocks whose parts are all pure"""
-        p = self.pure(e, env)
+        p = self.pure(e, env, want)
         if p is not None:
             return p
         if e[0] == "if" and e[3] is not None:
             c = self.pure_any(e[1], env)
-            a = self.pure_block(e[2], env)
-            b = self.pure_block(e[3], env) if e[3][0] == "block" else self.pure_any(e[3], env)
+            a = self.pure_block(e[2], env, want)
+            b = self.pure_block(e[3], env, want) if e[3][0] == "block" else self.pure_any(e[3], env, want)
             if c is None or a is None or b is None:
                 return None
             return "(if %s then\n%s\nelse\n%s)" % (c, a, b)
@@ -1619,13 +2196,13 @@ class FnTranslator:
             for (p_, _g, b) in e[2]:
                 env2 = dict(env)
                 ps = self.pat(p_, st, env2)
-                bt = self.pure_block(b, env2) if b[0] == "block" else self.pure_any(b, env2)
+                bt = self.pure_block(b, env2, want) if b[0] == "block" else self.pure_any(b, env2, want)
                 if bt is None:
                     return None
                 arms.append("| %s => %s" % (ps, bt))
             return "match %s with\n%s\nend" % (s, "\n".join(arms))
         if e[0] == "block":
-            r = self.pure_block(e, env)
+            r = self.pure_block(e, env, want)
             return "(%s)" % r if r is not None else None
         return None
 
@@ -1643,30 +2220,6 @@ def RETURN(v):
     return "Some %s" % v
 
 
-def fld(name):
-    return "f" + name if name.isdigit() else name
-
-
-def has_exit(e):
-    """does the expression contain `?` or `return` (an exit from the enclosing function)"""
-    if not isinstance(e, tuple):
-        return False
-    if e and e[0] in ("try", "return"):
-        return True
-    for x in e[1:]:
-        if isinstance(x, tuple) and has_exit(x):
-            return True
-        if isinstance(x, list):
-            for y in x:
-                if isinstance(y, tuple) and has_exit(y):
-                    return True
-                if isinstance(y, (list, tuple)):
-                    for z in y:
-                        if isinstance(z, tuple) and has_exit(z):
-                            return True
-    return False
-
-
 def indent(s, n=2):
     out, depth = [], 0
     for line in s.split("\n"):
@@ -1674,9 +2227,9 @@ def indent(s, n=2):
         if st.startswith("end") or st.startswith("else"):
             depth = max(0, depth - 1)
         out.append(" " * (n + 2 * depth) + st)
-        if st.startswith("match ") and not st.rstrip().endswith("end") and " end" not in st:
+        if st.startswith("match ") and " end" not in st:
             depth += 1
-        elif (st.endswith("then") or st == "else" or st.endswith("(if %s then" % "")):
+        elif st.endswith("then") or st == "else":
             depth += 1
         elif "(match " in st and " end" not in st:
             depth += 1
@@ -1684,32 +2237,44 @@ def indent(s, n=2):
 
 
 # ------------------------------------------------------------------------------------ module emission
+def default_term(ctx, t):
+    if is_nat(t):
+        return "0%nat"
+    if is_int(t):
+        return "0"
+    if t[0] == "ty" and t[1] == "bool":
+        return "false"
+    if t[0] == "ty" and t[1] == "Option":
+        return "None"
+    if is_list(t):
+        return "[]"
+    if t[0] == "ty" and ctx.struct(t[1]) is not None and "Default" in ctx.derives(t[1]):
+        return "%s_default" % t[1]
+    raise Unsupported("Default at type %s" % (t,))
+
+
 def emit_types(ctx, names):
     out = []
     for name in names:
         st = ctx.struct(name)
         if st is not None:
-            fields = " ".join("(%s_%s : %s)" % (name, fld(f), ctx.coq_ty(t)) for f, t in st)
             out.append("Record %s := %s_mk { %s }." % (name, name, "; ".join(
                 "%s_%s : %s" % (name, fld(f), ctx.coq_ty(t)) for f, t in st)))
-            derives = set()
-            for s in ctx.sources:
-                derives |= s.derives.get(name, set())
+            derives = ctx.derives(name)
             if "PartialEq" in derives:
                 conj = []
                 for f, t in st:
                     a, b = "(%s_%s a)" % (name, fld(f)), "(%s_%s b)" % (name, fld(f))
                     conj.append(eqb_term(ctx, t, a, b))
                 out.append("Definition %s_eqb (a b : %s) : bool :=\n  %s." % (name, name, " && ".join(conj) or "true"))
+            if "Default" in derives:
+                out.append("Definition %s_default : %s := %s_mk %s." % (name, name, name, " ".join(default_term(ctx, t) for _f, t in st)))
             continue
         en = ctx.enum(name)
         if en is not None:
             ctors = " ".join("| %s_%s%s" % (name, v, "".join(" (_ : %s)" % ctx.coq_ty(t) for t in tys)) for v, tys in en)
             out.append("Inductive %s := %s." % (name, ctors))
-            derives = set()
-            for s in ctx.sources:
-                derives |= s.derives.get(name, set())
-            if "PartialEq" in derives:
+            if "PartialEq" in ctx.derives(name):
                 arms = []
                 for v, tys in en:
                     xs = ["x%d" % i for i in range(len(tys))]
@@ -1723,12 +2288,16 @@ def emit_types(ctx, names):
 
 
 def eqb_term(ctx, t, a, b):
+    if is_nat(t):
+        return "(Nat.eqb %s %s)" % (a, b)
     if is_int(t):
         return "(%s =? %s)" % (a, b)
     if t[0] == "ty" and t[1] == "bool":
         return "(Bool.eqb %s %s)" % (a, b)
-    if t[0] == "ty" and t[1] == "Option" and is_int(t[2][0]):
+    if t[0] == "ty" and t[1] == "Option" and is_int(t[2][0]) and not is_nat(t[2][0]):
         return "(match %s, %s with Some x_, Some y_ => x_ =? y_ | None, None => true | _, _ => false end)" % (a, b)
+    if is_list(t) and t[2][0][0] == "ty" and ctx.struct(t[2][0][1]) is not None:
+        return "(list_eqb %s_eqb %s %s)" % (t[2][0][1], a, b)
     if t[0] == "ty" and (ctx.struct(t[1]) is not None or ctx.enum(t[1]) is not None):
         return "(%s_eqb %s %s)" % (t[1], a, b)
     raise Unsupported("derived equality at type %s" % (t,))
@@ -1743,25 +2312,48 @@ def const_value(ctx, name):
     raise Unsupported("constant %s is not an integer literal" % name)
 
 
+LOOPRANGE_FNS = ["finite", "infinite", "opt", "star", "plus", "point", "is_finite", "is_infinite", "is_point", "is_zero",
+                 "is_one", "is_all", "start", "end", "contains", "includes", "add", "checked_add", "checked_mul",
+                 "checked_right_mul_is_exact", "add_point", "scale", "mul", "right_mul_is_exact", "shift"]
+CHARSET_FNS = ["singleton", "range", "all_chars", "contains", "covers", "is_before", "is_after", "size", "is_singleton",
+               "is_alphabet", "pick", "inter", "inter_list", "union"]
+PARTITION_FNS = ["len", "is_empty", "new", "from_set", "push", "get", "interval", "start", "end", "pick", "empty_complement",
+                 "pick_complement", "valid_class_id", "num_classes", "pick_in_class", "class_of_char", "interval_cover",
+                 "class_of_set", "good_char_set"]
+
 MODULES = {
     "LoopRangeGen": {
         "files": ["loop_ranges.rs"],
         "types": ["LoopRange"],
         "consts": [],
-        "functions": [(None, None, "add32"), (None, None, "mul32")] + [("LoopRange", None, f) for f in (
-            "finite", "infinite", "opt", "star", "plus", "point", "is_finite", "is_infinite", "is_point", "is_zero",
-            "is_one", "is_all", "start", "end", "contains", "includes", "add", "checked_add", "checked_mul",
-            "checked_right_mul_is_exact", "add_point", "scale", "mul", "right_mul_is_exact", "shift")],
+        "functions": [(None, None, "add32"), (None, None, "mul32")] + [("LoopRange", None, f) for f in LOOPRANGE_FNS],
     },
     "CharSetGen": {
         "files": ["character_sets.rs", "smt_strings.rs"],
         "types": ["CharSet"],
         "consts": ["MAX_CHAR"],
-        "functions": [("CharSet", "PartialOrd", "partial_cmp")] + [("CharSet", None, f) for f in (
-            "singleton", "range", "all_chars", "contains", "covers", "is_before", "is_after", "size", "is_singleton",
-            "is_alphabet", "pick", "inter", "union")],
+        "functions": [("CharSet", "PartialOrd", "partial_cmp")] + [("CharSet", None, f) for f in CHARSET_FNS],
+    },
+    "PartitionGen": {
+        "files": ["character_sets.rs", "smt_strings.rs", "errors.rs"],
+        "types": ["CharSet", "CoverResult", "ClassId", "Error", "CharPartition"],
+        "consts": ["MAX_CHAR"],
+        "functions": [("CharSet", None, f) for f in ("contains", "is_before")]
+                     + [("CharPartition", None, f) for f in PARTITION_FNS]
+                     + [(None, None, "merge_partitions")],
     },
 }
+
+
+def extract_nested(body):
+    """nested `fn` items of a function body"""
+    out = []
+
+    def f(x):
+        if x[0] == "fn":
+            out.append(x)
+    walk(body, f)
+    return out
 
 
 def translate_module(name, repo):
@@ -1776,33 +2368,47 @@ def translate_module(name, repo):
     out += emit_types(ctx, cfg["types"])
     out.append("")
     primary = sources[0]
-    # signatures first (so that calls can be typed), in the configured order
     parsed = {}
     for key in cfg["functions"]:
         if key not in primary.fns:
             raise Unsupported("function %s not found in %s" % ("::".join(x for x in key if x), cfg["files"][0]))
-        params, ret, body = primary.parse_fn(key)
+        params, ret, body, mutself = primary.parse_fn(key)
         impl = key[0]
         coq = (impl + "_" if impl else "fn_") + key[2]
-        parsed[key] = (params, ret, body, coq)
-        ctx.fn_info[(impl, key[2])] = {"coq": coq, "ret": ctx.resolve_self(ret, impl) if impl else ret, "pure": None,
-                                       "params": params}
-    # purity by fixpoint: translate in dependency order (a callee must be known before its caller)
+        parsed[key] = (params, ret, body, coq, mutself)
+        rret = ctx.resolve_self(ret, impl) if impl else ret
+        rparams = [(n, ctx.resolve_self(t, impl)) for n, t in params]
+        full = rret if not mutself else (T(impl) if rret == UNIT else ("tup", [T(impl), rret]))
+        ctx.fn_info[(impl, key[2])] = {"coq": coq, "ret": rret, "full_ret": full, "pure": None, "fuel": False,
+                                       "params": rparams, "mutself": mutself}
+        if mutself:
+            MUTATING_METHODS.add(key[2])
     done, pending = {}, list(cfg["functions"])
     order = []
     progress = True
-    last_err = None
     while pending and progress:
         progress = False
         for key in list(pending):
-            params, ret, body, coq = parsed[key]
+            params, ret, body, coq, mutself = parsed[key]
             callees = called_fns(body, ctx, key[0])
             if any(ctx.fn_info[c]["pure"] is None and c != (key[0], key[2]) for c in callees):
                 continue
-            ft = FnTranslator(ctx, key[0], key[2], params, ret, body)
-            pure, text = ft.translate(coq)
-            ctx.fn_info[(key[0], key[2])]["pure"] = pure
-            done[key] = text
+            texts = []
+            local_fns = {}
+            for (_k, nname, nparams, nret, nbody) in extract_nested(body):
+                ncoq = "%s_%s" % (coq, nname)
+                nt = FnTranslator(ctx, key[0], ncoq, nparams, nret, nbody, False, {})
+                npure, nfuel, ntext = nt.translate()
+                local_fns[nname] = {"coq": ncoq, "ret": nt.ret, "full_ret": nt.ret, "pure": npure, "fuel": nfuel,
+                                    "params": nt.params, "mutself": False}
+                ctx.aux_names.append(ncoq)
+                ctx.aux_names.append("M_" + ncoq)
+                texts.append(ntext)
+            ft = FnTranslator(ctx, key[0], coq, params, ret, body, mutself, local_fns)
+            pure, fuel, text = ft.translate()
+            info = ctx.fn_info[(key[0], key[2])]
+            info["pure"], info["fuel"] = pure, fuel
+            done[key] = "\n".join(texts + [text])
             order.append(key)
             pending.remove(key)
             progress = True
@@ -1815,48 +2421,41 @@ def translate_module(name, repo):
     names = [ctx.fn_info[(k[0], k[2])]["coq"] for k in order]
     out.append("(* every generated definition, for `autounfold with rs2v` in the link proofs *)")
     out.append("Create HintDb rs2v.")
-    out.append("#[global] Hint Unfold %s : rs2v." % " ".join(names + ["M_" + n for n in names] + list(cfg["consts"])
-                                                               + [t + "_eqb" for t in cfg["types"] if has_eqb(ctx, t)]))
+    unf = names + ["M_" + n for n in names] + list(cfg["consts"]) + [t + "_eqb" for t in cfg["types"] if "PartialEq" in ctx.derives(t)] \
+        + [t + "_default" for t in cfg["types"] if ctx.struct(t) is not None and "Default" in ctx.derives(t)] \
+        + [n for n in ctx.aux_names if not re.search(r"_loop\d+$", n)]
+    out.append("#[global] Hint Unfold %s : rs2v." % " ".join(unf))
     out.append("")
-    return "\n".join(out), {"%s" % ctx.fn_info[(k[0], k[2])]["coq"]: ("pure" if ctx.fn_info[(k[0], k[2])]["pure"] else "option") for k in order}
-
-
-def has_eqb(ctx, name):
-    d = set()
-    for src in ctx.sources:
-        d |= src.derives.get(name, set())
-    return "PartialEq" in d
+    fninfo = {}
+    for k in order:
+        i = ctx.fn_info[(k[0], k[2])]
+        fninfo[i["coq"]] = ("pure" if i["pure"] else "option") + ("+fuel" if i["fuel"] else "")
+    return "\n".join(out), fninfo
 
 
 def called_fns(e, ctx, impl):
     res = set()
 
-    def walk(x):
-        if isinstance(x, tuple):
-            if x and x[0] == "call" and x[1][0] == "path":
-                p = list(x[1][1])
-                if p[0] == "Self":
-                    p[0] = impl
-                key = (None, p[0]) if len(p) == 1 else (p[0], p[1]) if len(p) == 2 else None
-                if key in ctx.fn_info:
-                    res.add(key)
-            if x and x[0] == "mcall":
-                for (i, n) in ctx.fn_info:
-                    if n == x[2] and i is not None:
-                        res.add((i, n))
-            for y in x:
-                walk(y)
-        elif isinstance(x, list):
-            for y in x:
-                walk(y)
-    walk(e)
+    def f(x):
+        if x[0] == "call" and x[1][0] == "path":
+            p = list(x[1][1])
+            if p[0] == "Self":
+                p[0] = impl
+            key = (None, p[0]) if len(p) == 1 else (p[0], p[1]) if len(p) == 2 else None
+            if key in ctx.fn_info:
+                res.add(key)
+        if x[0] == "mcall":
+            for (i, n) in ctx.fn_info:
+                if n == x[2] and i is not None:
+                    res.add((i, n))
+    walk(e, f)
     return res
 
 
 def main():
     a = sys.argv[1:]
     repo = "/repo"
-    outdir = os.path.join(ROOT, "coq", "Gen")
+    outdir = None
     mods = []
     i = 0
     while i < len(a):
@@ -1866,20 +2465,17 @@ def main():
             outdir = a[i + 1]; i += 2
         else:
             mods.append(a[i]); i += 1
+    if outdir is None:
+        print("usage: rs2v.py --out <dir> [--repo /repo] [module ...]"); sys.exit(2)
     os.makedirs(outdir, exist_ok=True)
     status = {}
     for m in mods or sorted(MODULES):
         try:
             text, fns = translate_module(m, repo)
-            path = os.path.join(outdir, m + ".v")
-            old = open(path).read() if os.path.exists(path) else None
-            if old != text:
-                open(path, "w").write(text)
-            status[m] = {"ok": True, "changed": old != text, "functions": fns}
+            open(os.path.join(outdir, m + ".v"), "w").write(text)
+            status[m] = {"ok": True, "functions": fns}
         except Unsupported as ex:
             status[m] = {"ok": False, "reason": str(ex)}
-        except (KeyError, IndexError, TypeError) as ex:
-            status[m] = {"ok": False, "reason": "translator error: %r" % (ex,)}
     print(json.dumps(status, indent=1))
     return status
 
